@@ -288,7 +288,8 @@ func drawValidReq(rt *rapid.T, w *WorldDesc, md *MethodDesc, label string) proto
 		m := req.ProtoReflect()
 		for _, q := range rpc.Query {
 			fd := m.Descriptor().Fields().ByName(protoreflect.Name(q.Field))
-			if q.Required && fd != nil && !fd.IsList() && !m.Has(fd) {
+			if q.Required && fd != nil && !fd.IsList() && (!m.Has(fd) || isNegZero(fd, m.Get(fd))) {
+				// (-0 is "set" for protobuf but equal to 0 for the clients' zero-value elision)
 				m.Set(fd, nonZeroValue(fd))
 			}
 		}
@@ -312,4 +313,11 @@ func annType(fq string) string {
 		return fq[i+1:]
 	}
 	return "plain"
+}
+
+func isNegZero(fd protoreflect.FieldDescriptor, v protoreflect.Value) bool {
+	if fd.Kind() != protoreflect.FloatKind && fd.Kind() != protoreflect.DoubleKind {
+		return false
+	}
+	return v.Float() == 0
 }
